@@ -1,9 +1,10 @@
 ------------------------------ MODULE XPathLex ------------------------------
 (* Character-level tokeniser of XPath 1.0 (section 3.7: longest possible token,
    ExprWhitespace between tokens) producing the text tokens XPathGrammar judges.
-   Characters are one-character TLC strings; two placeholders stand for bytes the
-   harness substitutes: "~" a non-ASCII name character (e-acute), "\f" is used for an
-   invalid UTF-8 byte (0xFF).  Tokenise(cs) = [ok |-> BOOLEAN, ts |-> tokens].       *)
+   Characters are one-character TLC strings; placeholders stand for bytes the harness
+   substitutes: "~" a non-ASCII name character (e-acute), "`" an invalid UTF-8 byte,
+   "^" vertical tab, "{" NUL, "}" no-break space; form feed is itself.  None of them is
+   XPath whitespace or part of any token, so they are lexical errors.  Tokenise(cs) = [ok |-> BOOLEAN, ts |-> tokens].       *)
 EXTENDS XPathGrammar
 
 NameStart == Letters \cup {"~"}
